@@ -66,6 +66,22 @@ def d_linear_int16():
     return B.request([B.coded_const("sid", 0x2E, 0), B.value_param("x", d, 1)]), [("x", ("affine", 2, 1))], None
 
 
+def d_linear_float_with_display_precision():
+    # physical = internal / 256 as a float; PRECISION is a display hint and must not change the decoded value
+    d = B.dop("fine", dct=B.std_type(16), phys_dt=DataType.A_FLOAT64, precision=2,
+              compu_method=B.linear(0, 0.00390625, DataType.A_UINT32, DataType.A_FLOAT64))
+    return B.request([B.coded_const("sid", 0x2E, 0), B.value_param("x", d, 1)]), \
+        [("x", ("affine", 0.00390625, 0))], None
+
+
+def d_bytes_const_and_bytes_last():
+    # a constant that is no integer (mismatch handling formats it) and a byte field of fixed length at the very end
+    return B.request([B.coded_const("sid", 0x67, 0), B.coded_const("magic", b"\x12\x34", 1, 16, dt=DataType.A_BYTEFIELD),
+                      B.value_param("key", B.dop("b32", dct=B.std_type(32, DataType.A_BYTEFIELD),
+                                                 dt=DataType.A_BYTEFIELD))]), \
+        [("key", ("bytes", 4, 4))], None
+
+
 def d_matching_request_then_const():
     return B.response([B.coded_const("sid", 0x71, 0), B.matching_request("echo_sub", 1, 1),
                        B.matching_request("echo_id", 2, 2), B.coded_const("marker", 0xAA),
@@ -157,6 +173,21 @@ def d_multiplexer():
     return B.request([B.coded_const("sid", 0x22, 0), B.value_param("m", m)]), \
         [("m", ("oneof", [("tuple", "c1", ("dict", [("a", ("uint", 8))])),
                           ("tuple", "c2", ("dict", [("b", ("uint", 16))]))]))], None
+
+
+def d_multiplexer_open_limits():
+    # a case with an OPEN upper limit next to a default case: whichever reading of the limit the library takes, the
+    # encoder and the decoder must take the same one
+    low = B.structure("low", [B.value_param("a", B.dop("u8", 8))])
+    other = B.structure("other", [B.value_param("d", B.dop("u16", 16))])
+    m = B.mux("mx", B.dop("key", 8), [("low", 1, 5, low, "CLOSED", "OPEN")], default=("other", other))
+    alternatives = []
+    for key in (1, 4, 5, 6):
+        alternatives.append(("muxkey", key, ("dict", [("a", ("uint", 8))])))
+        alternatives.append(("muxkey", key, ("dict", [("d", ("uint", 16))])))
+    alternatives.append(("tuple", "low", ("dict", [("a", ("uint", 8))])))
+    return B.request([B.coded_const("sid", 0x22, 0), B.value_param("m", m), B.coded_const("end", 0x77, 4)]), \
+        [("m", ("oneof", alternatives))], None
 
 
 def _the_table():
@@ -311,6 +342,9 @@ DESCRIPTIONS = {
     "dynamic-endmarker-field": d_dynamic_endmarker_field,
     "dynamic-endmarker-field-last": d_dynamic_endmarker_field_last,
     "env-data-field": d_env_data_field, "env-data+struct": d_env_data_then_struct,
+    "multiplexer-open-limits": d_multiplexer_open_limits,
+    "linear-float-precision": d_linear_float_with_display_precision,
+    "bytes-const+bytes-last": d_bytes_const_and_bytes_last,
 }
 
 # descriptions in which every bit of the PDU is determined by the decoded values: no reserved bits, no padding behind
@@ -333,6 +367,13 @@ FUNCTIONS = [Request.encode, Request.decode, Response.encode, Response.decode,
              SystemParameter.is_required, ValueParameter.is_required, DataObjectProperty.encode_into_pdu,
              DataObjectProperty.decode_from_pdu, StandardLengthType.encode_into_pdu,
              StandardLengthType.decode_from_pdu, MinMaxLengthType.encode_into_pdu, MinMaxLengthType.decode_from_pdu]
+
+
+def _same(got, want):
+    if isinstance(want, tuple) and len(want) == 2 and isinstance(want[0], int):
+        # a multiplexer case selected by the numerical key decodes to (case name, content)
+        return H.And(isinstance(got, tuple), len(got) == 2, H.eq(got[1], want[1]))
+    return H.eq(got, want)
 
 
 def _value(name, kind):
@@ -364,6 +405,9 @@ def _value(name, kind):
     if kind[0] == "oneof":
         return _value(name, H.pick(f"alt_{name}", kind[1]))
     if kind[0] == "tuple":
+        return (kind[1], _value(f"{name}_{kind[1]}", kind[2]))
+    if kind[0] == "muxkey":
+        # a multiplexer case selected by the numerical value of the switch key
         return (kind[1], _value(f"{name}_{kind[1]}", kind[2]))
     if kind[0] == "list":
         count = H.pick(f"n_{name}", kind[2])
@@ -453,6 +497,15 @@ def roundtrip_through_the_real_stack(desc):
         else:
             omitted.append(name)
     request_bytes = H.bytes("triggering_request", 0, 5) if trigger else None
+    const_given_as = "omitted"
+    if desc in ("sid+u8", "lowhigh-12+4"):
+        # a value may be given for a constant: it has to be the constant (and of its type)
+        const_given_as = H.pick("sid_given_as", ["omitted", "the constant", "another int", "a float that truncates to it",
+                                                 "a text that parses to it"])
+        c = codec.parameters[0].coded_value
+        if const_given_as != "omitted":
+            values["sid"] = {"the constant": c, "another int": c + 1, "a float that truncates to it": c + 0.5,
+                             "a text that parses to it": str(c)}[const_given_as]
     required = [p.short_name for p in codec.required_parameters]
     free = [p.short_name for p in codec.free_parameters]
     try:
@@ -468,13 +521,15 @@ def roundtrip_through_the_real_stack(desc):
         ok = [_acceptable(kind, values[name]) for (name, kind) in specs if name in values]
         if not trigger and all([q is not None for q in ok]):
             H.check("C08:only-required-parameters-are-needed-for-encoding",
-                    H.Or(H.Not(H.And(ok)), any([n in required for n in omitted])))
+                    H.Or(H.Not(H.And(ok)), any([n in required for n in omitted]),
+                         const_given_as not in ("omitted", "the constant")))
         return
     except Exception:
         H.check("C04:rejections-are-odxtools-errors-never-foreign-exceptions", False)
         return
     H.cover("encoded")
     H.check("C04:rejections-are-odxtools-errors-never-foreign-exceptions", True)
+    H.check("C04:a-value-given-for-a-constant-is-the-constant", const_given_as in ("omitted", "the constant"))
     H.check("C04:values-for-unknown-parameters-are-rejected",
             not any(["bogus" in v for v in values.values() if isinstance(v, dict)]))
     H.check("C08:omitting-a-required-parameter-makes-encoding-fail", all([n not in required for n in omitted]))
@@ -510,7 +565,7 @@ def roundtrip_through_the_real_stack(desc):
             got = back[name]
             if desc == "dtc":
                 got = got.trouble_code  # DTCs decode to the DTC object carrying the trouble code
-            H.check("C01,C04:decoded-value-is-the-encoded-value", H.eq(got, values[name]))
+            H.check("C01,C04:decoded-value-is-the-encoded-value", _same(got, values[name]), independent=True)
     for p in codec.parameters:
         if isinstance(p, CodedConstParameter):
             H.check("C01:constants-decode-to-their-value", back[p.short_name] == p.coded_value)
@@ -531,7 +586,10 @@ def roundtrip_through_the_real_stack(desc):
     except OdxError:
         H.check("C03:decoded-values-can-be-re-encoded", desc == "system-params")
         return
-    if desc != "system-params":
+    # (a multiplexer case selected by a key other than the lower limit of its case is no canonical form: the decoded
+    # value names the case, re-encoding emits the lower limit)
+    by_key = [v for v in values.values() if isinstance(v, tuple) and len(v) == 2 and isinstance(v[0], int)]
+    if desc != "system-params" and all([v[0] == 1 for v in by_key]):
         H.check("C03:re-encoding-the-decoded-values-reproduces-the-pdu", H.eq(bytes(pdu2), bytes(pdu)))
 
 
@@ -556,6 +614,12 @@ def constant_prefix_is_a_prefix_of_every_message(desc):
     H.cover("encoded")
     parts = [codec.coded_const_prefix()]
     if trigger:
+        # (the prefix is a function of the request handed in: an earlier question about another request on the same
+        # object must not influence the answer)
+        try:
+            codec.coded_const_prefix(H.bytes("request_asked_about_before", 0, 5))
+        except OdxError:
+            pass
         parts = [codec.coded_const_prefix(bytes(request_bytes)[:j]) for j in range(5) if j <= len(request_bytes)]
     for part in parts:
         H.check("C06,C08:constant-prefix-is-a-prefix-of-the-pdu",
